@@ -5,6 +5,7 @@ consume numpy's global generator and only the save/restore protects the
 caller)."""
 import copy
 import os
+import random
 
 import numpy as np
 
@@ -117,6 +118,10 @@ class RngWorld(World):
                 if rng.random() < 0.3:
                     v["max_attempts"] = rng.choice([5, 10, 30])
                 pool[j] = v
+        # the documented parameter order, by position (own generator: plans otherwise unchanged)
+        r_cs = random.Random("rng-callstyle:%s:%d" % (config, seed))
+        for a_ in pool:
+            a_["call_style"] = r_cs.choice(["keyword"] * 4 + ["positional"])
         sched = []
         nact = rng.randint(4, 8) if small else rng.randint(6, 14)
         npoisson = 0
@@ -247,7 +252,11 @@ class RngWorld(World):
                     return inner(*aa, **kk)
                 samp._poisson = counted
                 try:
-                    mask = samp.poisson(shape_arg, accel_arg, **kw)
+                    pargs, pkw = (shape_arg, accel_arg), kw
+                    if args.get("call_style") == "positional":
+                        pargs, pkw = common.as_positional("poisson", pargs, pkw)
+                        stats["buggify.positional_arguments"] += 1
+                    mask = samp.poisson(*pargs, **pkw)
                 except CallBudgetExceeded:
                     raise Violation("poisson_does_not_terminate", site, step,
                                     {"args": args, "inner_calls": calls["n"], "jit": not jit_off})
@@ -274,7 +283,7 @@ class RngWorld(World):
                 if args["seed"] is not None:
                     if after != before:
                         raise Violation("global_rng_state_changed", site, step, {"args": args, "jit": not jit_off})
-                    key = codec.json_digest({kk: vv for kk, vv in args.items() if kk not in ("arg_types", "return_density")})
+                    key = codec.json_digest({kk: vv for kk, vv in args.items() if kk not in ("arg_types", "return_density", "call_style")})
                     dg = codec.bytes_digest(mask)
                     if key in first:
                         stats["probes.rng_repeat_compared"] += 1
